@@ -398,6 +398,12 @@ func (w *World) ledgerArms(c ssa.CallInstruction) []ledgerArm {
 		return nil
 	}
 	// call through a (phi of) bound method value(s)
+	return w.ledgerArmsOfValue(cc.Value, c)
+}
+
+// ledgerArmsOfValue: the ledger methods a function value (bound method value or
+// phi of bound method values) stands for; nil if it is anything else.
+func (w *World) ledgerArmsOfValue(fv ssa.Value, c ssa.CallInstruction) []ledgerArm {
 	var arms []ledgerArm
 	var walk func(v ssa.Value, pred, phiBlk *ssa.BasicBlock, depth int) bool
 	walk = func(v ssa.Value, pred, phiBlk *ssa.BasicBlock, depth int) bool {
@@ -422,7 +428,7 @@ func (w *World) ledgerArms(c ssa.CallInstruction) []ledgerArm {
 		}
 		return false
 	}
-	if walk(cc.Value, nil, nil, 0) {
+	if walk(fv, nil, nil, 0) {
 		return arms
 	}
 	return nil
